@@ -26,6 +26,8 @@ func init() {
 	for _, n := range []string{"sort.Slice", "sort.SliceStable", "slices.SortFunc", "slices.SortStableFunc", "slices.Sort"} {
 		intrinsics[n] = sortSlice
 	}
+	intrinsics["errors.As"] = errorsAs
+	intrinsics["github.com/go-faster/errors.As"] = errorsAs
 	for _, n := range []string{"Add", "Done", "Wait"} {
 		intrinsics["sync.WaitGroup."+n] = noop
 	}
@@ -80,6 +82,40 @@ func sortSlice(x *Exec, s *State, e *ast.CallExpr, c callee) (Val, bool) {
 		s.heapSet(name, srt, mkSto(cur, v.Ref, na), v.Ref)
 	}
 	return Val{K: KTuple}, true
+}
+
+// errorsAs: errors.As(err, &target) either returns false, or stores a non-nil value of target's
+// type (found in err's chain) into target and returns true. Which error is found is not modelled.
+func errorsAs(x *Exec, s *State, e *ast.CallExpr, c callee) (Val, bool) {
+	u, ok := unparen(e.Args[1]).(*ast.UnaryExpr)
+	if !ok || u.Op != token.AND {
+		return Val{}, false
+	}
+	errV := x.eval(s, e.Args[0])
+	tt := x.typeOf(u.X)
+	okv := s.freshVal("as.ok", types.Typ[types.Bool])
+	// a nil error never matches
+	s.assume(mkImp(mkEq(errV.Tag, "0"), mkNot(okv.S)))
+	nv := s.freshVal("as.target", tt)
+	cur := x.eval(s, u.X)
+	// target is written only on success
+	cf, nf := flatten(cur), flatten(nv)
+	terms := make([]string, len(cf))
+	for i := range cf {
+		terms[i] = mkIte(okv.S, nf[i], cf[i])
+	}
+	res, _ := unflatten(tt, terms)
+	switch nv.K {
+	case KInt:
+		if _, isPtr := under(tt).(*types.Pointer); isPtr {
+			s.assume(mkImp(okv.S, mkNot(mkEq(nv.S, "0"))))
+		}
+	case KIface:
+		s.assume(mkImp(okv.S, mkNot(mkEq(nv.Tag, "0"))))
+	}
+	x.assign(s, u.X, res)
+	x.eng.note("errors.As stores some non-nil value of the target type on success; which error of the chain is not modelled")
+	return okv, true
 }
 
 func noop(x *Exec, s *State, e *ast.CallExpr, c callee) (Val, bool) {
